@@ -1594,8 +1594,9 @@ class Module(ABC):
             self.base.externals[key] = jnp.concatenate(
                 [self.base.externals[key], values]
             )
+            inds = self._nodes_in_view if key in comp_states else self._edges_in_view
             self.base.external_inds[key] = jnp.concatenate(
-                [self.base.external_inds[key], self._nodes_in_view]
+                [self.base.external_inds[key], inds]
             )
         else:
             if key in comp_states:
